@@ -6,6 +6,7 @@ import Ggql.Model.ExeCF
 import Ggql.Model.NumText
 import Ggql.Model.ScanTables
 import Ggql.Model.CharTables
+import Ggql.Props.FragCycle
 namespace Ggql.Driver.C03
 open Ggql Ggql.Scan
 
@@ -96,6 +97,19 @@ def handle (tb : Tables) (c impl : T) : String :=
         verdict impl cur [{ flag := "D05", onInCur := false, obs := alt }] specOk
       | "val" => verdict impl (valObs cm bytes tail) [] specOk
       | _ => "bad-op"
+  | .node "c03f" [names, edges] =>
+    -- the fragment-cycle check: (c03f (l NAME…sorted) (l (e NAME (l SPREAD…))…)); impl: (l REPORTED…)
+    (match (do
+        let ns ← optMap T.asStr (← names.asList)
+        let es ← optMap (fun (e : T) => match e with
+          | T.node "e" [n, ss] => do pure ((← n.asStr), (← optMap T.asStr (← ss.asList)))
+          | _ => none) (← edges.asList)
+        pure (ns, es)) with
+     | none => "bad-op"
+     | some (ns, es) =>
+       let cur := T.list ((FragCycle.reported es (ns.length + 2) {} ns).map T.ofStr)
+       -- the property: a request with a spread cycle must be refused (else resolving it never ends)
+       if impl == cur then "ok" else "mismatch spec-bad " ++ cur.render)
   | .node "c03r" [sg] =>
     match sg.asStr with
     | none => "bad-op"
